@@ -51,24 +51,25 @@ def llm_fn_for(kind, version):
 def explore_world(task):
     version, order, dialog, exceptions, turns = task[:5]
     library = len(task) > 5 and task[5] == "library"
+    param = len(task) > 5 and task[5] == "param"
     v2 = version == "2.x"
     res = {"worlds": 1, "turns": 0, "conversations": 0, "rejections": 0, "rewrites": 0, "llm_text_turns": 0,
            "turns_after_a_block_or_rewrite": 0, "rail_calls": 0, "viol": []}
-    info0 = {"engine": "E3-world", "prop": "C02", "version": version, "order": list(order), "dialog": dialog, "exceptions": exceptions, "library_rails": library}
+    info0 = {"engine": "E3-world", "prop": "C02", "version": version, "order": list(order), "dialog": dialog, "exceptions": exceptions, "library_rails": library, "param_rails": param}
     try:
         if v2:
             world = rw.v2_world(in_order=("in1",), out_order=order, dialog=dialog, exceptions=exceptions, library=library)
         else:
-            world = rw.v1_world(in_order=("in1",), out_order=order, dialog=dialog, exceptions=exceptions)
+            world = rw.v1_world(in_order=("in1",), out_order=order, dialog=dialog, exceptions=exceptions, param_rails=("both" if param else False))
     except Exception as e:
         res["viol"].append((f"world-rejected:{version}", repr(e), info0))
         return res
     outs = outcomes_v2(order) if v2 else outcomes_v1(order)
-    if library:
+    if library or param:
         outs = [o for o in outs if "W" not in o]   # the shipped rail allows or rejects
     kinds = (["llm", "predef"] + ([] if v2 else ["var"])) if dialog is True else ["llm"]
     nonce = [0]
-    tag = f"{'v2' if v2 else 'v1'}:{'llmlib' if dialog == 'llm' else ('dialog' if dialog else 'nodialog')}" + (":library-rails" if library else "")
+    tag = f"{'v2' if v2 else 'v1'}:{'llmlib' if dialog == 'llm' else ('dialog' if dialog else 'nodialog')}" + (":library-rails" if library else "") + (":parameterised-rails" if param else "")
 
     def expand(ctx, t, hist, disturbed):
         if t > turns:
@@ -150,11 +151,14 @@ def explore_world(task):
                             if v2:
                                 evs = [e for e in reply_events(turn.reply) if e.get("type") == "OutputRailException"]
                                 ok = bool(evs) and evs[0].get("message") == rw.v2_exc_message(rejected_by, library)
+                            elif param:
+                                # (Colang 1.0 does not interpolate the `{$model}` of the shipped rail's message)
+                                ok = turn.text == "EXC:Output not allowed. The output was blocked by the 'content safety check output $model='{$model}'' flow."
                             else:
                                 ok = turn.text == f"EXC:BLOCKED-{rejected_by}"
                             if not ok:
                                 bad("reply-is-not-the-rail-exception", f"rail {rejected_by} rejected; reply {turn.text!r}")
-                        elif turn.text != (rw.v2_refusal(rejected_by, library) if v2 else f"REFUSED-{rejected_by}"):
+                        elif turn.text != (rw.v2_refusal(rejected_by, library) if v2 else (rw.LIB_REFUSAL if param else f"REFUSED-{rejected_by}")):
                             bad("reply-is-not-the-refusal", f"rail {rejected_by} rejected; reply {turn.text!r}")
                     else:
                         if cur != llm_text:
@@ -354,6 +358,10 @@ def tasks(tier):
                             continue
                         seen.add(key)
                         out.append((version, order, dialog, exc, turns))
+    # Colang 1.0: one shipped rail flow configured twice with different parameters (content safety check output $model=...)
+    for dialog in (False, True):
+        for exc in (False, True):
+            out.append(("1.0", ("out1", "out2"), dialog, exc, 2 if tier == "quick" else 3, "param"))
     # the shipped `self check output` rail (its action replaced by a stub)
     for dialog in (False, True, "llm"):
         for exc in (False, True):
@@ -397,7 +405,7 @@ def replay(rp):
     v2 = rp["version"] == "2.x"
     order = tuple(rp["order"])
     world = (rw.v2_world(in_order=("in1",), out_order=order, dialog=rp["dialog"], exceptions=rp["exceptions"], library=rp.get("library_rails", False)) if v2
-             else rw.v1_world(in_order=("in1",), out_order=order, dialog=rp["dialog"], exceptions=rp["exceptions"]))
+             else rw.v1_world(in_order=("in1",), out_order=order, dialog=rp["dialog"], exceptions=rp["exceptions"], param_rails=("both" if rp.get("param_rails") else False)))
     ctx = {} if v2 else []
     for step in rp["history"]:
         verdicts = {"in1": "A"}
